@@ -2,6 +2,7 @@ import HpxVerif.Lemmas.PolyLemmas
 import HpxVerif.Props.C15
 import HpxVerif.Lemmas.EllipseReal
 import HpxVerif.Props.C16
+import HpxVerif.Lemmas.EConeReal4
 
 set_option autoImplicit false   -- an unknown identifier in a statement is an error, never a new variable
 
@@ -207,5 +208,145 @@ theorem start_depth_table_regular :
       C16.dyHalvingLo (j + 2) 1 25 (Gen.smallerEdge2OpEdgeDistDyadic.getD (j + 2) (0, 0)) (Gen.smallerEdge2OpEdgeDistDyadic.getD (j + 3) (0, 0)) = true ∧
       C16.dyHalvingHi (j + 2) 1 10 (Gen.smallerEdge2OpEdgeDistDyadic.getD (j + 2) (0, 0)) (Gen.smallerEdge2OpEdgeDistDyadic.getD (j + 3) (0, 0)) = true) :=
   C16.table_halving.1
+
+/-! ## the elliptical-cone tests over the reals: what they mean, where they are sound, where they are not
+
+`adist` = angular distance, `vec` = unit vector (`Lemmas/ConeReal.lean`); `ProjSIN.c0 p` = the projection centre;
+`sinX`, `sinY` = the orthographic coordinates; `inCell`, `hcover`, H1 as in the cone scheme of C05. -/
+
+section EllipticalConeReal
+open Hpx Hpx.Cover Hpx.Bmoc Hpx.Sph Real
+
+/-- **`ProjSIN::proj` is the orthographic projection**, defined exactly on the open visible hemisphere
+    (`cos(angular distance) > 0`, the great circle at `π/2` excluded) -/
+theorem proj_sin_spec (p : ProjSIN ℝ) (hp : p.Coherent) (l φ : ℝ) :
+    p.proj l φ = if 0 < cos (adist (l, φ) p.c0) then some (sinX p.c0 (l, φ), sinY p.c0 (l, φ)) else none :=
+  Hpx.Sph.proj_sin_spec p hp l φ
+
+/-- **`forced_proj_and_distance`** (after the repair of finding F18): for *every* point of the sphere, the same
+    `(x, y)` as the orthographic projection (mirror image for the points of the far hemisphere) together with the
+    exact angular distance to the centre, in `[0, π]` -/
+theorem forced_proj_and_distance_spec (p : ProjSIN ℝ) (hp : p.Coherent) (l φ : ℝ) :
+    p.forcedProjAndDistance l φ = ((sinX p.c0 (l, φ), sinY p.c0 (l, φ)), adist (l, φ) p.c0) :=
+  Hpx.Sph.forcedProjAndDistance_spec p hp l φ
+
+/-- **circular case, `contains_cone`**: for `a = b < π/2` and a radius `r ≥ 0`, the test answers `true` exactly when
+    the whole cone of radius `r` around `(l, φ)` lies at `≤ a` of the centre with `r < a`:
+    `angular distance + r ≤ a`.  (Sound *and* complete in the circular case.) -/
+theorem contains_cone_circular (lon lat a pa l φ r : ℝ) (ha : 0 < a ∧ a < π / 2) (hr : 0 ≤ r) :
+    (ECone.new (α := ℝ) lon lat a a pa).containsCone l φ r = true ↔
+      r < a ∧ adist (l, φ) (ProjSIN.new lon lat).c0 + r ≤ a :=
+  Hpx.Sph.contains_cone_circular lon lat a pa l φ r ha hr
+
+/-- **`contains_cone` is sound in the circular case**: if it answers `true`, every point within `r` of `(l, φ)` is within
+    `a` of the centre (so belongs to the cone, `econe_contains_circular'`) -/
+theorem contains_cone_circular_sound (lon lat a pa l φ r : ℝ) (ha : 0 < a ∧ a < π / 2) (hr : 0 ≤ r)
+    (h : (ECone.new (α := ℝ) lon lat a a pa).containsCone l φ r = true) (q : ℝ × ℝ) (hq : adist (l, φ) q ≤ r) :
+    adist q (ProjSIN.new lon lat).c0 ≤ a ∧ (ECone.new (α := ℝ) lon lat a a pa).contains q.1 q.2 = true :=
+  Hpx.Sph.contains_cone_circular_sound lon lat a pa l φ r ha hr h q hq
+
+/-- **`overlap_cone` is sound in the circular case** (`a = b < π/2`, `0 < r ≤ π/2`): if the cone of radius `r` around
+    `(l, φ)` meets the cone of radius `a` around the centre (`angular distance ≤ a + r`) the test answers `true` — for
+    every position of the cone centre, far hemisphere included — *outside the special case of the code*, i.e. when the
+    norm `sin d` of the projected cone centre exceeds `2^-1024` (`1 / norm` finite in `f64`).  In the special case the
+    code answers `r ≤ b`: see `overlap_cone_special_case`. -/
+theorem overlap_cone_circular_sound (lon lat a pa l φ r : ℝ) (ha : 0 < a ∧ a < π / 2) (hr : 0 < r ∧ r ≤ π / 2)
+    (hfin : 1 / 2 ^ 1024 < sin (adist (l, φ) (ProjSIN.new lon lat).c0))
+    (hd : adist (l, φ) (ProjSIN.new lon lat).c0 ≤ a + r) :
+    (ECone.new (α := ℝ) lon lat a a pa).overlapCone l φ r = some true :=
+  Hpx.Sph.overlap_cone_circular_sound lon lat a pa l φ r ha hr hfin hd
+
+/-- a concrete instance of the special case: ellipse centre `(0, 0)`, `a = b = 1/10`; the cone of radius `1/5` around
+    `(0, 2^-1024)` contains the centre, yet `overlap_cone` answers `false`; the point is inside the ellipse, which is
+    what keeps the cell in the coverage -/
+theorem overlap_cone_special_case_counterexample :
+    adist (0, 1 / 2 ^ 1024) (ProjSIN.new (α := ℝ) 0 0).c0 ≤ 1 / 5 ∧
+    (ECone.new (α := ℝ) 0 0 (1 / 10) (1 / 10) 0).overlapCone 0 (1 / 2 ^ 1024) (1 / 5) = some false ∧
+    (ECone.new (α := ℝ) 0 0 (1 / 10) (1 / 10) 0).contains 0 (1 / 2 ^ 1024) = true :=
+  Hpx.Sph.overlap_cone_special_case_counterexample 
+
+/-- **the test `contains ∨ overlap_cone` of the descent never rejects a cone that contains the centre of the ellipse**:
+    general `0 < b ≤ a < π/2` with `2^-1024 < sin b`, `0 < r ≤ π/2` -/
+theorem centre_cone_kept (lon lat a b pa l φ r : ℝ) (hb : 0 < b) (hba : b ≤ a) (ha : a < π / 2)
+    (hmin : 1 / 2 ^ 1024 < sin b) (hr : 0 < r ∧ r ≤ π / 2)
+    (hd : adist (l, φ) (ProjSIN.new lon lat).c0 ≤ r) :
+    (ECone.new (α := ℝ) lon lat a b pa).contains l φ = true ∨
+      (ECone.new (α := ℝ) lon lat a b pa).overlapCone l φ r = some true :=
+  Hpx.Sph.centre_cone_kept lon lat a b pa l φ r hb hba ha hmin hr hd
+
+/-- circular case: membership is `angular distance to (lon, lat) ≤ a`, for every real `lon`, `lat`, `pa` -/
+theorem ellipse_circular_is_disc (lon lat a pa l φ : ℝ) (ha : 0 < a ∧ a < π / 2) :
+    (ECone.new (α := ℝ) lon lat a a pa).contains l φ = true ↔ adist (l, φ) (lon, lat) ≤ a :=
+  Hpx.Sph.econe_contains_circular_iff lon lat a pa l φ ha
+
+/-- circular case: the skip test `¬contains ∧ overlap_cone = false` is sound -/
+theorem circular_skip_sound (lon lat a pa l φ r : ℝ) (ha : 0 < a ∧ a < π / 2) (hmin : 1 / 2 ^ 1024 < sin a)
+    (hr : r ≤ π / 2) (har : a + r ≤ 3)
+    (hc : (ECone.new (α := ℝ) lon lat a a pa).contains l φ = false)
+    (ho : (ECone.new (α := ℝ) lon lat a a pa).overlapCone l φ r = some false) :
+    a + r < adist (l, φ) (lon, lat) :=
+  Hpx.Sph.circular_skip_sound lon lat a pa l φ r ha hmin hr har hc ho
+
+/-- **C13, the centre cell is kept** (relative to the envelope hypothesis `H1` at the centre): for every centre
+    `(lon, lat)`, `0 < b ≤ a < π/2` (`sin b > 2^-1024`), position angle, target depth, start depth and start cell: if the
+    descent returns `out` and `(lon, lat)` lies in the start cell, it lies in a cell of `out` -/
+theorem centre_cell_kept (cfg : Cfg) (lon lat a b pa : ℝ) (hb : 0 < b) (hba : b ≤ a) (ha : a < π / 2)
+    (hmin : 1 / 2 ^ 1024 < sin b) (dists : List ℝ) (hD : ∀ D ∈ dists, D ≤ π / 2)
+    (inCell : Nat → Nat → ℝ × ℝ → Prop) (target ds : Nat)
+    (hcover : ∀ d h q, d ≠ target → inCell d h q → inCell (d + 1) (h <<< 2) q ∨ inCell (d + 1) (h <<< 2 ||| 1) q ∨
+      inCell (d + 1) (h <<< 2 ||| 2) q ∨ inCell (d + 1) (h <<< 2 ||| 3) q)
+    (hext : ∀ d h q q', vec q.1 q.2 = vec q'.1 q'.2 → inCell d h q → inCell d h q')
+    (H1 : ∀ d h c D, ds ≤ d → Hash.center (α := ℝ) cfg d h = some c → dists[d - ds]? = some D →
+      inCell d h (lon, lat) → adist c (lon, lat) ≤ D)
+    (fuel root : Nat) (out : List Cell)
+    (h : coverRec target (ellClassifier (α := ℝ) cfg target (ECone.new lon lat a b pa) dists) fuel ds root 0 = some out)
+    (hq : inCell ds root (lon, lat)) :
+    ∃ c ∈ out, inCell c.depth c.hash (lon, lat) :=
+  Hpx.Sph.centre_cell_kept cfg lon lat a b pa hb hba ha hmin dists hD inCell target ds hcover hext H1 fuel root out h hq
+
+/-- **C13, circular case: nothing is missed** (relative to the envelope hypothesis `H1`): for `a = b`, every point within
+    `a` of `(lon, lat)` lying in the start cell lies in a cell of the output -/
+theorem circular_no_miss (cfg : Cfg) (lon lat a pa : ℝ) (ha : 0 < a ∧ a < π / 2)
+    (hmin : 1 / 2 ^ 1024 < sin a) (dists : List ℝ) (hD : ∀ D ∈ dists, D ≤ π / 2 ∧ a + D ≤ 3)
+    (inCell : Nat → Nat → ℝ × ℝ → Prop) (target ds : Nat)
+    (hcover : ∀ d h q, d ≠ target → inCell d h q → inCell (d + 1) (h <<< 2) q ∨ inCell (d + 1) (h <<< 2 ||| 1) q ∨
+      inCell (d + 1) (h <<< 2 ||| 2) q ∨ inCell (d + 1) (h <<< 2 ||| 3) q)
+    (H1 : ∀ d h c D q, ds ≤ d → Hash.center (α := ℝ) cfg d h = some c → dists[d - ds]? = some D → inCell d h q →
+      adist c q ≤ D)
+    (fuel root : Nat) (out : List Cell)
+    (h : coverRec target (ellClassifier (α := ℝ) cfg target (ECone.new lon lat a a pa) dists) fuel ds root 0 = some out)
+    (q : ℝ × ℝ) (hq : inCell ds root q) (hin : adist q (lon, lat) ≤ a) :
+    ∃ c ∈ out, inCell c.depth c.hash q :=
+  Hpx.Sph.circular_no_miss cfg lon lat a pa ha hmin dists hD inCell target ds hcover H1 fuel root out h q hq hin
+
+/-- **C13, circular case: `full` flags are truthful** (relative to `H1`) -/
+theorem circular_full_inside (cfg : Cfg) (lon lat a pa : ℝ) (ha : 0 < a ∧ a < π / 2)
+    (dists : List ℝ) (hD : ∀ D ∈ dists, 0 ≤ D)
+    (inCell : Nat → Nat → ℝ × ℝ → Prop) (target ds : Nat)
+    (H1 : ∀ d h c D q, ds ≤ d → Hash.center (α := ℝ) cfg d h = some c → dists[d - ds]? = some D → inCell d h q →
+      adist c q ≤ D)
+    (fuel root : Nat) (out : List Cell)
+    (h : coverRec target (ellClassifier (α := ℝ) cfg target (ECone.new lon lat a a pa) dists) fuel ds root 0 = some out)
+    (c : Cell) (hc : c ∈ out) (hf : c.full = true) :
+    (∀ q, inCell c.depth c.hash q → adist q (lon, lat) ≤ a) ∨
+    (c.depth = target ∧ ∃ vs, Hash.vertices (α := ℝ) cfg c.depth c.hash = some vs ∧
+      ∀ v ∈ vs, adist v (lon, lat) ≤ a) :=
+  Hpx.Sph.circular_full_inside cfg lon lat a pa ha dists hD inCell target ds H1 fuel root out h c hc hf
+
+/-- **the skip test is unsound for `a ≠ b`, over the reals**: centre `(0, 0)`, `sin a = 19/20`, `sin b = 1/100`, major axis
+    at `asin(24/25)` from the east; the cone of radius `r = asin(5/13)` around `p = (0, asin(84/85))` contains the point
+    `q = (asin(3/5), asin(80/89))` of the elliptical cone, `p` is outside the ellipse and `overlap_cone(p, r) = false`:
+    a cell of centre `p` whose bounding radius is `r` is skipped although it may contain `q`.
+    (At `f64`: `a = 1.2532`, `b = 0.0100`, `pa = 0.2838`, `p = (0, 1.41725)`, `r = 0.39479`, `q = (0.6435, 1.1172)`: same
+    answers, the test fails by 3.5 %.) -/
+theorem overlap_cone_noncircular_unsound :
+    ∃ (a b pa r : ℝ) (p q : ℝ × ℝ), 0 < b ∧ b ≤ a ∧ a < π / 2 ∧ 0 < r ∧ r ≤ π / 2 ∧ 1 / 2 ^ 1024 < sin b ∧
+      (ECone.new (α := ℝ) 0 0 a b pa).contains q.1 q.2 = true ∧ adist p q ≤ r ∧
+      (ECone.new (α := ℝ) 0 0 a b pa).contains p.1 p.2 = false ∧
+      (ECone.new (α := ℝ) 0 0 a b pa).overlapCone p.1 p.2 r = some false :=
+  Hpx.Sph.overlap_cone_noncircular_unsound 
+
+
+end EllipticalConeReal
 
 end Hpx.C13
